@@ -236,41 +236,52 @@ def run_estimators(df, meta, bound):
         t = 'average_treatment_effect' if meta['outcome'] != 'binary' else 'risk_difference'
         results['IPTW'] = (np.asarray(getattr(vals[False][4], t)).ravel()[:2].tolist(), np.asarray(getattr(vals[True][4], t)).ravel()[:2].tolist())
 
-    def aiptw():
+    def learner():
+        from sklearn.linear_model import LogisticRegression
+        return LogisticRegression(penalty=None, solver='lbfgs', max_iter=2000)
+
+    def aiptw(custom=False):
         vals = {}
+        tag = 'AIPTW' + ('(custom_model)' if custom else '')
         for bd in (False, bound):
             ai = AIPTW(df, 'A', 'Y')
-            ai.exposure_model(rhs, bound=bd, print_results=False)
+            kw = {'custom_model': learner()} if custom else {}
+            ai.exposure_model(rhs, bound=bd, print_results=False, **kw)
             if miss:
-                ai.missing_model('A + ' + rhs, bound=bd, print_results=False)
+                kw = {'custom_model': learner()} if custom else {}
+                ai.missing_model('A + ' + rhs, bound=bd, print_results=False, **kw)
             ai.outcome_model('A + ' + rhs, print_results=False)
             ai.fit()
             vals[bool(bd)] = ai
-        sites['AIPTW.exposure_model.g1'] = (np.asarray(vals[False].df['_g1_']), np.asarray(vals[True].df['_g1_']))
-        sites['AIPTW.exposure_model.g0'] = (np.asarray(vals[False].df['_g0_']), np.asarray(vals[True].df['_g0_']))
+        sites[tag + '.exposure_model.g1'] = (np.asarray(vals[False].df['_g1_']), np.asarray(vals[True].df['_g1_']))
+        sites[tag + '.exposure_model.g0'] = (np.asarray(vals[False].df['_g0_']), np.asarray(vals[True].df['_g0_']))
         if miss:
-            o = ~np.isnan(np.asarray(vals[False].df['_ipmw_a1_']))
-            sites['AIPTW.missing_model'] = (np.asarray(vals[False].df['_ipmw_a1_'])[o], np.asarray(vals[True].df['_ipmw_a1_'])[o])
+            o = ~np.isnan(np.asarray(vals[False].df['_ipmw_a1_'], dtype=float))
+            sites[tag + '.missing_model'] = (np.asarray(vals[False].df['_ipmw_a1_'], dtype=float)[o], np.asarray(vals[True].df['_ipmw_a1_'], dtype=float)[o])
+            sites[tag + '.missing_model.a0'] = (np.asarray(vals[False].df['_ipmw_a0_'], dtype=float)[o], np.asarray(vals[True].df['_ipmw_a0_'], dtype=float)[o])
         t = 'average_treatment_effect' if meta['outcome'] != 'binary' else 'risk_difference'
-        results['AIPTW'] = ([float(getattr(vals[False], t))], [float(getattr(vals[True], t))])
+        results[tag] = ([float(getattr(vals[False], t))], [float(getattr(vals[True], t))])
 
-    def tmle():
+    def tmle(custom=False):
         vals = {}
+        tag = 'TMLE' + ('(custom_model)' if custom else '')
         for bd in (False, bound):
             tm = TMLE(df, 'A', 'Y')
-            tm.exposure_model(rhs, bound=bd, print_results=False)
+            kw = {'custom_model': learner()} if custom else {}
+            tm.exposure_model(rhs, bound=bd, print_results=False, **kw)
             if miss:
-                tm.missing_model('A + ' + rhs, bound=bd, print_results=False)
+                kw = {'custom_model': learner()} if custom else {}
+                tm.missing_model('A + ' + rhs, bound=bd, print_results=False, **kw)
             tm.outcome_model('A + ' + rhs, print_results=False)
             tm.fit()
             vals[bool(bd)] = tm
-        sites['TMLE.exposure_model.g1'] = (np.asarray(vals[False].g1W), np.asarray(vals[True].g1W))
-        sites['TMLE.exposure_model.g0'] = (np.asarray(vals[False].g0W), np.asarray(vals[True].g0W))
+        sites[tag + '.exposure_model.g1'] = (np.asarray(vals[False].g1W), np.asarray(vals[True].g1W))
+        sites[tag + '.exposure_model.g0'] = (np.asarray(vals[False].g0W), np.asarray(vals[True].g0W))
         if miss:
-            sites['TMLE.missing_model.m1'] = (np.asarray(vals[False].m1W), np.asarray(vals[True].m1W))
-            sites['TMLE.missing_model.m0'] = (np.asarray(vals[False].m0W), np.asarray(vals[True].m0W))
+            sites[tag + '.missing_model.m1'] = (np.asarray(vals[False].m1W), np.asarray(vals[True].m1W))
+            sites[tag + '.missing_model.m0'] = (np.asarray(vals[False].m0W), np.asarray(vals[True].m0W))
         t = 'average_treatment_effect' if meta['outcome'] != 'binary' else 'risk_difference'
-        results['TMLE'] = ([float(getattr(vals[False], t))], [float(getattr(vals[True], t))])
+        results[tag] = ([float(getattr(vals[False], t))], [float(getattr(vals[True], t))])
 
     def iptw_schemes():
         # every weighting scheme must be built from the TRUNCATED probabilities (also the odds-type SMR weights)
@@ -289,6 +300,8 @@ def run_estimators(df, meta, bound):
     guard('IPTW.schemes', iptw_schemes)
     guard('AIPTW', aiptw)
     guard('TMLE', tmle)
+    guard('AIPTW(custom_model)', lambda: aiptw(True))     # the user-supplied-learner branches of the same functions
+    guard('TMLE(custom_model)', lambda: tmle(True))
     return sites, results, errors
 
 
